@@ -474,6 +474,32 @@ def deep_and_history(ctx):
                 st.violation("C07/deep/depth-256-accepted", {"bindings": serving}, "a key", "refused")
             except errs:
                 pass
+            # public-derivation tweaks (BIP328's use): the scalars each unhardened step adds; any hardened index is refused
+            K0, c0 = M.pub(k), c
+            for path in ([], [0], [1, 2], [2**31 - 1], [0, 2**31 - 1, 5], [2**31], [0, 2**31], [2**31 + 1], [2**32 - 1], [5, 2**31, 1]):
+                st.evals += 1
+                st.nontrivial += 1
+                case = {"path": path, "bindings": serving}
+                hardened = any(i >= 2**31 for i in path)
+                try:
+                    tw = bip32.pub_key_derivation_tweaks(M.ser(K0), c0, path)
+                except errs:
+                    tw = None
+                if hardened:
+                    if tw is not None:
+                        st.violation("C07/tweaks/hardened-step-from-a-public-key-answered", case, [t.hex()[:10] for t in tw], "refused")
+                    continue
+                if tw is None:
+                    st.violation("C07/tweaks/unhardened-path-refused", case, "refused", "tweaks")
+                    continue
+                Kc, cc_ = K0, c0
+                exp = []
+                for i in path:
+                    I = real_hmac.new(cc_, M.ser(Kc) + i.to_bytes(4, "big"), "sha512").digest()
+                    exp.append(I[:32])
+                    Kc, cc_ = M.ckd_pub(Kc, cc_, i)
+                if [bytes(t) for t in tw] != exp:
+                    st.violation("C07/tweaks/differ-from-bip32", case, [bytes(t).hex()[:10] for t in tw], [t.hex()[:10] for t in exp])
             # (b) histories: an answered list edited by the caller
             paths = ["m/84h/0h/0h", "m/0/1", "m"]
             for path in paths:
